@@ -385,7 +385,15 @@ fn gen_program(hs: &HistSeed, cfg: Cfg, prefix: &[Call]) -> Vec<Cmd> {
                         if r.valid(&Call::Add(id)) {
                             r.step(&Call::Add(id));
                             nvars += 1;
-                            let name = match b % 7 {
+                            // the family of names is fixed per script in half of the scripts, so that
+                            // names that differ only slightly meet in one text
+                            let fam = if hs.order_sel & 1 == 1 { (hs.order_sel >> 1) % 10 } else { b % 10 };
+                            let name = match fam {
+                                // different spellings of one number are different names: ν1, ν01, ν001, 2, 02, ...
+                                7 => format!("ν{}{}", "0".repeat((nvars as usize - 1) % 3), (nvars - 1) / 3 + 1),
+                                8 => format!("{}{}", "0".repeat((nvars as usize - 1) % 3), (nvars - 1) / 3 + 1),
+                                // names that differ in case only
+                                9 => format!("{}{}", if nvars % 2 == 0 { "Tmp" } else { "tmp" }, (nvars + 1) / 2),
                                 0 => format!("ν{nvars}"),
                                 1 => format!("v{nvars}"),
                                 2 => format!("x_{nvars}"),
@@ -565,9 +573,12 @@ pub fn render_program(cmds: &[Cmd], seeds: &[u16]) -> String {
     s
 }
 
-const CORRUPT_CHARS: [char; 30] = [
+const CORRUPT_CHARS: [char; 40] = [
     'A', 'D', 'B', 'P', 'X', 'a', 'd', 'z', 'f', '0', '1', '9', '(', ')', ',', ';', '#', '$', 'ν', 'α', '-', '+', ' ', '\n', '\t', '.', 'G', 'g', '_', 'λ',
+    // digits and letters that only look like ASCII ones, a combining mark, a 4-byte digit
+    '٣', '１', '𝟓', '²', 'Ａ', 'ａ', 'е', '\u{301}', '½', '\u{a0}',
 ];
+const ODD_DIGITS: [char; 6] = ['٣', '１', '𝟓', '²', '½', '৪'];
 
 fn corrupt(text: &str, cmds: &[Cmd], fmt: &[u16], (kind, pos, ch): (u8, u16, u16)) -> (String, &'static str) {
     let chars: Vec<char> = text.chars().collect();
@@ -575,7 +586,7 @@ fn corrupt(text: &str, cmds: &[Cmd], fmt: &[u16], (kind, pos, ch): (u8, u16, u16
         return (text.to_string(), "empty");
     }
     let c = CORRUPT_CHARS[idx(ch, CORRUPT_CHARS.len())];
-    match kind % 12 {
+    match kind % 13 {
         0 => {
             let p = idx(pos, chars.len());
             let mut v = chars.clone();
@@ -637,6 +648,19 @@ fn corrupt(text: &str, cmds: &[Cmd], fmt: &[u16], (kind, pos, ch): (u8, u16, u16
                     },
                     Cmd::Add(_) => (orig.replacen('(', "(99999999999999999999999", 1), "fault.id_overflow"),
                 },
+                11 => {
+                    // one ASCII digit (of an id, an index or a datum) becomes a non-ASCII digit
+                    let od = ODD_DIGITS[idx(ch, ODD_DIGITS.len())];
+                    let digits: Vec<usize> = orig.char_indices().filter(|(_, c)| c.is_ascii_digit()).map(|(i, _)| i).collect();
+                    match digits.get(idx(ch.rotate_left(5), digits.len().max(1))) {
+                        Some(p) => {
+                            let mut o = orig.clone();
+                            o.replace_range(*p..*p + 1, &od.to_string());
+                            (o, "fault.non_ascii_digit")
+                        }
+                        None => (orig.clone(), "none"),
+                    }
+                }
                 _ => (format!("{orig} {orig}"), "fault.missing_semicolon"),
             };
             pieces[j] = new;
